@@ -7,7 +7,13 @@
 //!     x<k>  version k plus a file whose bytes are a stored tree blob (tree/data id collision)
 //!     f<i>  forget the (i mod live)-th snapshot (kept if it is the only one)      u  bring the last forgotten back
 //!     m     store a second copy of an index file (duplicate index entries)
-//!     p<keepDelete>,<keepPack>,<FLAGS>,<maxRepack>,<maxUnused>,<dt>   prune at (real now + dt seconds)
+//!     p<keepDelete>,<keepPack>,<FLAGS>,<maxRepack>,<maxUnused>,<dt>   prune at (real now + dt seconds, injected)
+//!     s     a second handle reads the repository now (its index goes stale)
+//!     a<k>  the second handle finishes a backup of version k: de-duplicated against the stale index, its new files
+//!           (packs, index, snapshot) arrive now — the backup overlapped every prune since `s`
+//! After `u` / `a` the repository is only *recoverable* (blobs may live in packs marked for deletion) until the next prune.
+//! The harness keeps its own record of WHEN each pack was marked (the injected time of the marking prune): a
+//! non-instant prune may remove a pack only if that record is at least keep-delete old.
 use std::collections::{BTreeMap, BTreeSet};
 
 use bytes::Bytes;
@@ -116,7 +122,7 @@ fn all_index(h: &RepoHandle) -> Result<Vec<(Id, IndexFile)>, String> {
     Ok(decode_index_files(h, &store, &ids)?.into_iter().map(|(i, f)| (*i, f)).collect())
 }
 
-fn prune_step(h: &RepoHandle, spec: &str, step: usize) -> Result<(), String> {
+fn prune_step(h: &RepoHandle, spec: &str, step: usize, marked_at: &mut BTreeMap<Id, i64>) -> Result<(), String> {
     // spec = keepDelete,keepPack,FLAGS,maxRepack,maxUnused,dt
     let v: Vec<&str> = spec.split(',').collect();
     if v.len() != 6 {
@@ -130,7 +136,7 @@ fn prune_step(h: &RepoHandle, spec: &str, step: usize) -> Result<(), String> {
     let now = Timestamp::now().as_second() + dt + 1;
     let zoned = Timestamp::from_second(now).unwrap().to_zoned(TimeZone::UTC);
     let rep = hook::plan_at(&repo, &po.opts, zoned).map_err(|e| fail(&format!("plan-{}", errkind(&e)), step))?;
-    let plan = if dt == 0 {
+    if dt == 0 {
         // the unhooked planner must agree with the hooked one (same state, same options, clock within a second)
         let real = repo.prune_plan(&po.opts).map_err(|e| fail(&format!("plan-{}", errkind(&e)), step))?;
         // (index files are streamed in parallel, so with duplicate blobs the two plans may legitimately choose
@@ -150,30 +156,44 @@ fn prune_step(h: &RepoHandle, spec: &str, step: usize) -> Result<(), String> {
         if sig(&real.stats) != sig(&rep.plan.stats) {
             return Err(fail("hook-plan-differs-from-prune_plan", step));
         }
-        real
-    } else {
-        rep.plan
-    };
+    }
+    // the plan with the injected time is the one that is executed: every time the run writes is `now`
+    let plan = rep.plan;
     h.be.clear_log();
     repo.prune(&po.opts, plan).map_err(|e| fail(&format!("prune-{}", errkind(&e)), step))?;
     let log = h.be.log();
-    // a non-instant prune removes a pack only if it was marked at least keep-delete ago
-    if !po.instant {
-        let mut marked: BTreeMap<Id, Option<i64>> = BTreeMap::new();
-        let mut unmarked: BTreeSet<Id> = BTreeSet::new();
-        for (_, f) in &pre_index {
-            for p in &f.packs_to_delete {
-                _ = marked.insert(*p.id, p.time.map(|t| t.as_second()));
-            }
-            for p in &f.packs {
-                _ = unmarked.insert(*p.id);
-            }
+    // a non-instant prune removes a pack only if it was marked at least keep-delete ago — by the harness' own record
+    // of the time of the prune that marked it (and the time stored in the index must say the same)
+    let mut unmarked: BTreeSet<Id> = BTreeSet::new();
+    let mut marked: BTreeMap<Id, Option<i64>> = BTreeMap::new();
+    for (_, f) in &pre_index {
+        for p in &f.packs_to_delete {
+            _ = marked.insert(*p.id, p.time.map(|t| t.as_second()));
         }
+        for p in &f.packs {
+            _ = unmarked.insert(*p.id);
+        }
+    }
+    if !po.instant {
         for o in log.iter().filter(|o| !o.write && o.tpe == FileType::Pack) {
-            match marked.get(&o.id) {
-                Some(Some(t)) if t + kd <= now && !unmarked.contains(&o.id) => {}
+            match (marked_at.get(&o.id), marked.get(&o.id)) {
+                (Some(t), Some(_)) if t + kd <= now && !unmarked.contains(&o.id) => {}
                 _ => return Err(fail("pack-removed-before-keep-delete", step)),
             }
+        }
+    }
+    // update the record: packs that are marked now and were not before got marked by this run
+    let post_index = all_index(h).map_err(|_| fail("index-undecodable", step))?;
+    let mut post_marked: BTreeSet<Id> = BTreeSet::new();
+    let mut post_unmarked: BTreeSet<Id> = BTreeSet::new();
+    for (_, f) in &post_index {
+        post_marked.extend(f.packs_to_delete.iter().map(|p| *p.id));
+        post_unmarked.extend(f.packs.iter().map(|p| *p.id));
+    }
+    marked_at.retain(|id, _| post_marked.contains(id) && !post_unmarked.contains(id));
+    for id in &post_marked {
+        if !post_unmarked.contains(id) {
+            _ = marked_at.entry(*id).or_insert(now);
         }
     }
     // phase order: writes, then index removals, then pack removals (early-delete-index is not generated here)
@@ -204,6 +224,9 @@ pub fn exec_hist(t: &[&str]) -> String {
     let Ok((h, _)) = RepoHandle::init(MemBackend::new(), None, &cfg) else { return "oracle-fail:init".into() };
     let mut live: Vec<Live> = vec![];
     let mut forgotten: Vec<(Live, Bytes)> = vec![];
+    let mut stale: Option<repo::Store> = None;
+    let mut pending = false;
+    let mut marked_at: BTreeMap<Id, i64> = BTreeMap::new();
     for (si, st) in steps.iter().enumerate() {
         if st.is_empty() {
             return "bad-op".into();
@@ -264,6 +287,7 @@ pub fn exec_hist(t: &[&str]) -> String {
                 if let Some((l, raw)) = forgotten.pop() {
                     h.be.put_raw(FileType::Snapshot, *l.snap.id, raw);
                     live.push(l);
+                    pending = true;
                 }
                 Ok(())
             }
@@ -277,15 +301,41 @@ pub fn exec_hist(t: &[&str]) -> String {
                 }
                 Ok(())
             }
-            "p" => prune_step(&h, arg, si),
+            "s" => {
+                if !arg.is_empty() {
+                    return Err("bad-op".into());
+                }
+                stale = Some(h.be.store());
+                Ok(())
+            }
+            "a" => {
+                let k: u64 = arg.parse().map_err(|_| "bad-op".to_string())?;
+                let Some(base) = stale.take() else { return Err("bad-op".into()) };
+                let h2 = RepoHandle { be: MemBackend::from_store(base.clone()), hot: None, key: h.key.clone() };
+                let src = source(seed, k, None);
+                let snap = backup(&h2, &src)?;
+                let mut merged = h.be.store();
+                for (key, val) in h2.be.store() {
+                    if !base.contains_key(&key) {
+                        _ = merged.insert(key, val);
+                    }
+                }
+                h.be.set_store(merged);
+                live.push(Live { snap, src });
+                pending = true;
+                Ok(())
+            }
+            "p" => {
+                pending = false;
+                prune_step(&h, arg, si, &mut marked_at)
+            }
             _ => Err("bad-op".into()),
         })();
         if let Err(e) = r {
             return e;
         }
         // after `u` the repository is only *recoverable* until the next prune; everything else must verify
-        let pending_recover = c == "u";
-        if !pending_recover {
+        if !pending {
             if let Err(e) = verify(&h, &live, si) {
                 return e;
             }
@@ -294,81 +344,300 @@ pub fn exec_hist(t: &[&str]) -> String {
     format!("ok snaps={}", live.len())
 }
 
-fn gen_prune(rng: &mut Rng, dt: i64, allow_instant: bool) -> (String, bool, i64) {
+/// slack (seconds) for the wall-clock that passes between the steps of one history
+const CLOCK_SLACK: i64 = 900;
+
+#[derive(Clone, Copy)]
+struct PruneSpec {
+    kd: i64,
+    kp: i64,
+    flags: [bool; 7],
+    mr: &'static str,
+    mu: &'static str,
+}
+
+fn rand_prune(rng: &mut Rng, allow_instant: bool) -> PruneSpec {
     let kd = *rng.pick(&[0i64, 3600, 82_800]);
     let kp = *rng.pick(&[0i64, 0, 0, 3600]);
     let instant = allow_instant && rng.chance(1, 5);
     let unc = rng.chance(1, 8);
     let fast = !unc && rng.chance(1, 2);
     let flags = [rng.chance(1, 6), unc, rng.chance(1, 5), rng.chance(1, 4), instant, false, fast];
-    let fl: String = flags.iter().map(|b| if *b { '1' } else { '0' }).collect();
     let mr = *rng.pick(&["u", "u", "p10", "p50", "s100000000", "s2000"]);
     let mu = *rng.pick(&["u", "p0", "p5", "p5", "p50", "s0", "s500"]);
-    (format!("p{kd},{kp},{fl},{mr},{mu},{dt}"), instant, kd)
+    PruneSpec { kd, kp, flags, mr, mu }
+}
+
+/// What the generator knows about the history so far: enough to emit only *legal* `u` / `a` steps (nothing the
+/// returning snapshot needs may have been physically deleted in between) and to pick snapshots by version.
+struct Gen {
+    steps: Vec<String>,
+    /// versions of the live snapshots, in the order of the harness' `live` list
+    live: Vec<u64>,
+    /// forgotten snapshots (stack): (version, still safe to bring back, dt of the first prune after the forget)
+    forgotten: Vec<(u64, bool, Option<i64>)>,
+    /// open stale handle: (still safe to finish, dt of the first prune since `s`)
+    stale: Option<(bool, Option<i64>)>,
+    dt: i64,
+    maxv: u64,
+}
+
+impl Gen {
+    fn new() -> Self {
+        Self { steps: vec!["b0".into()], live: vec![0], forgotten: vec![], stale: None, dt: 0, maxv: 0 }
+    }
+    fn backup(&mut self, v: u64, stats: &mut Stats) {
+        self.steps.push(format!("b{v}"));
+        self.live.push(v);
+        self.maxv = self.maxv.max(v);
+        stats.hit("hist.backup");
+    }
+    /// forget the snapshot at position `i` of the live list
+    fn forget(&mut self, i: usize, stats: &mut Stats) -> bool {
+        if self.live.len() < 2 {
+            return false;
+        }
+        let i = i % self.live.len();
+        let v = self.live.remove(i);
+        self.steps.push(format!("f{i}"));
+        self.forgotten.push((v, true, None));
+        stats.hit("hist.forget");
+        true
+    }
+    fn prune(&mut self, p: PruneSpec, stats: &mut Stats) {
+        let fl: String = p.flags.iter().map(|b| if *b { '1' } else { '0' }).collect();
+        self.steps.push(format!("p{},{},{fl},{},{},{}", p.kd, p.kp, p.mr, p.mu, self.dt));
+        let instant = p.flags[4];
+        let dt = self.dt;
+        // a pack marked by the first prune after the forget / `s` (at dt0) is deleted by this prune when
+        // now - keep_delete >= mark time; wall-clock drift between the steps is bounded by CLOCK_SLACK
+        let upd = |safe: &mut bool, first: &mut Option<i64>| {
+            if instant {
+                *safe = false;
+            }
+            match *first {
+                None => *first = Some(dt),
+                Some(dt0) => {
+                    if dt - p.kd + CLOCK_SLACK >= dt0 {
+                        *safe = false;
+                    }
+                }
+            }
+        };
+        for (_, safe, first) in &mut self.forgotten {
+            upd(safe, first);
+        }
+        if let Some((safe, first)) = &mut self.stale {
+            upd(safe, first);
+        }
+        stats.hit("hist.prune");
+        if instant {
+            stats.hit("hist.prune.instant");
+        }
+        if p.kd > 0 {
+            stats.hit("hist.prune.keep-delete>0");
+        }
+    }
+    /// bring the last forgotten snapshot back (only if legal) and prune (the prune must recover)
+    fn resurrect(&mut self, rng: &mut Rng, stats: &mut Stats) -> bool {
+        match self.forgotten.last() {
+            Some((_, true, _)) => {}
+            _ => return false,
+        }
+        let (v, _, first) = self.forgotten.pop().unwrap();
+        self.steps.push("u".into());
+        self.live.push(v);
+        stats.hit("hist.resurrect");
+        if first.is_some() {
+            stats.hit("hist.resurrect-after-marking-prune");
+        }
+        let p = rand_prune(rng, true);
+        self.prune(p, stats);
+        true
+    }
+    fn open_stale(&mut self, stats: &mut Stats) {
+        self.steps.push("s".into());
+        self.stale = Some((true, None));
+        stats.hit("hist.stale-handle");
+    }
+    /// the stale handle finishes its backup (only if legal), then prune (must recover what the backup re-used)
+    fn finish_stale(&mut self, v: u64, rng: &mut Rng, stats: &mut Stats) -> bool {
+        match self.stale.take() {
+            Some((true, first)) => {
+                self.steps.push(format!("a{v}"));
+                self.live.push(v);
+                self.maxv = self.maxv.max(v);
+                stats.hit("hist.overlapping-backup");
+                if first.is_some() {
+                    stats.hit("hist.backup-overlaps-marking-prune");
+                }
+                let p = rand_prune(rng, true);
+                self.prune(p, stats);
+                true
+            }
+            _ => false,
+        }
+    }
+    fn pos_of(&self, v: u64) -> Option<usize> {
+        self.live.iter().rposition(|x| *x == v)
+    }
+}
+
+/// prune options that keep marked packs for a while and tolerate no / little unused space (so partly used packs are repacked)
+fn marking_prune(rng: &mut Rng, kd: i64, tight: bool) -> PruneSpec {
+    let mut p = rand_prune(rng, false);
+    p.kd = kd;
+    p.kp = 0;
+    p.flags[0] = false; // repack_cacheable_only would keep data packs
+    if tight {
+        p.mr = "u";
+        p.mu = *rng.pick(&["p0", "s0", "p0", "p5"]);
+        p.flags[3] = false;
+    }
+    p
 }
 
 pub fn gen_hist(rng: &mut Rng, stats: &mut Stats, thorough: bool) -> String {
     let seed = rng.below(1_000_000);
-    let len = 3 + rng.below(if thorough { 12 } else { 7 });
-    let mut steps = vec!["b0".to_string()];
-    let mut k = 0u64;
-    let mut dt = 0i64;
-    let mut n_live = 1u32;
+    let mut g = Gen::new();
+    let shape = rng.below(8);
+    match shape {
+        // (a) keep-delete > 0, packs still marked, their blobs uploaded again (duplicates) into packs that become
+        //     partly used and are repacked while the marked packs are still kept
+        0 | 1 => {
+            stats.hit("hist.shape.duplicates-of-marked-blobs");
+            let v = 1 + rng.below(4);
+            g.backup(v, stats);
+            _ = g.forget(g.pos_of(v).unwrap(), stats);
+            let kd = *rng.pick(&[3600i64, 82_800]);
+            g.dt += *rng.pick(&[0i64, 0, 90_000]);
+            let tight = rng.chance(1, 2);
+            let p = marking_prune(rng, kd, tight);
+            g.prune(p, stats);
+            g.backup(v, stats); // blobs in marked packs are not indexed: uploaded again
+            let w = *rng.pick(&[v + 1, v + 2, v + 2, v + 3]);
+            g.backup(w, stats); // shares some of them
+            _ = g.forget(g.pos_of(v).unwrap(), stats);
+            let p = marking_prune(rng, kd, true);
+            g.prune(p, stats);
+            if rng.chance(1, 2) {
+                let p = marking_prune(rng, kd, true);
+                g.prune(p, stats);
+            }
+        }
+        // (b) a backup overlaps the marking prune (stale index), then a prune — often with instant-delete — must recover
+        2 | 3 => {
+            stats.hit("hist.shape.backup-overlaps-marking-prune");
+            let v = 1 + rng.below(4);
+            g.backup(v, stats);
+            g.open_stale(stats);
+            _ = g.forget(g.pos_of(v).unwrap(), stats);
+            g.dt += *rng.pick(&[0i64, 0, 90_000]);
+            let kd = *rng.pick(&[0i64, 3600, 82_800]);
+            let tight = rng.chance(1, 2);
+            let p = marking_prune(rng, kd, tight);
+            g.prune(p, stats);
+            let w = *rng.pick(&[v, v, v + 1]);
+            g.steps.push(format!("a{w}"));
+            g.live.push(w);
+            g.stale = None;
+            stats.hit("hist.overlapping-backup");
+            stats.hit("hist.backup-overlaps-marking-prune");
+            let mut p = rand_prune(rng, true);
+            if rng.chance(1, 2) {
+                p.flags[4] = true;
+            }
+            g.prune(p, stats);
+        }
+        // (c) packs older than keep-delete when they are marked, a second prune right away, then the data is needed again
+        4 | 5 => {
+            stats.hit("hist.shape.old-packs-marked-then-prune-again");
+            let v = 1 + rng.below(4);
+            g.backup(v, stats);
+            let overlap = rng.chance(1, 2);
+            if overlap {
+                g.open_stale(stats);
+            }
+            _ = g.forget(g.pos_of(v).unwrap(), stats);
+            let kd = *rng.pick(&[3600i64, 82_800]);
+            g.dt += *rng.pick(&[3600i64, 90_000, 90_000, 200_000]);
+            let tight = rng.chance(1, 2);
+            let p = marking_prune(rng, kd, tight);
+            g.prune(p, stats);
+            let tight = rng.chance(1, 2);
+            let mut p = marking_prune(rng, kd, tight);
+            p.kp = *rng.pick(&[0i64, 3600]);
+            g.prune(p, stats);
+            if overlap {
+                _ = g.finish_stale(v, rng, stats);
+            } else {
+                _ = g.resurrect(rng, stats);
+            }
+        }
+        _ => stats.hit("hist.shape.random"),
+    }
+    let len = if shape < 6 { rng.below(4) } else { 3 + rng.below(if thorough { 12 } else { 7 }) };
     for _ in 0..len {
-        match rng.below(20) {
-            0..=5 => {
-                k += 1;
-                steps.push(format!("b{k}"));
-                n_live += 1;
-                stats.hit("hist.backup");
+        match rng.below(24) {
+            0..=4 => {
+                let v = g.maxv + 1;
+                g.backup(v, stats);
+            }
+            5 => {
+                // an earlier version again
+                let v = rng.below(g.maxv + 1);
+                g.backup(v, stats);
+                stats.hit("hist.backup-earlier-version-again");
             }
             6..=7 => {
-                k += 2;
-                steps.push(format!("c{}", k - 1));
-                n_live += 2;
+                let v = g.maxv + 1;
+                g.steps.push(format!("c{v}"));
+                g.live.push(v);
+                g.live.push(v + 1);
+                g.maxv = v + 1;
                 stats.hit("hist.concurrent-pair");
             }
             8 => {
-                k += 1;
-                steps.push(format!("x{k}"));
-                n_live += 1;
+                let v = g.maxv + 1;
+                g.steps.push(format!("x{v}"));
+                g.live.push(v);
+                g.maxv = v;
                 stats.hit("hist.id-collision");
             }
             9..=12 => {
-                if n_live > 1 {
-                    steps.push(format!("f{}", rng.below(8)));
-                    n_live -= 1;
-                    stats.hit("hist.forget");
+                if g.forget(rng.below(8) as usize, stats) && rng.chance(3, 4) {
                     // usually prune right after
-                    if rng.chance(3, 4) {
-                        dt += *rng.pick(&[0i64, 0, 3600, 90_000]);
-                        let (p, instant, kd) = gen_prune(rng, dt, true);
-                        steps.push(p);
-                        stats.hit("hist.prune");
-                        // `u` is only legal while nothing of the forgotten snapshot can have been deleted:
-                        if !(instant || kd == 0) && rng.chance(1, 2) {
-                            // kd > 0 and marks are fresh: the snapshot can come back and the next prune must recover
-                            steps.push("u".into());
-                            n_live += 1;
-                            stats.hit("hist.resurrect");
-                            let (p, _, _) = gen_prune(rng, dt, false);
-                            steps.push(p);
-                            stats.hit("hist.prune");
-                        }
+                    g.dt += *rng.pick(&[0i64, 0, 3600, 90_000]);
+                    let p = rand_prune(rng, true);
+                    g.prune(p, stats);
+                    if rng.chance(1, 3) {
+                        // … and once more right away
+                        let p = rand_prune(rng, true);
+                        g.prune(p, stats);
+                    }
+                    if rng.chance(1, 2) {
+                        _ = g.resurrect(rng, stats);
                     }
                 }
             }
             13 => {
-                steps.push("m".into());
+                g.steps.push("m".into());
                 stats.hit("hist.dup-index");
             }
+            14..=15 => {
+                if g.stale.is_none() {
+                    g.open_stale(stats);
+                } else {
+                    let v = if rng.chance(1, 2) { g.maxv + 1 } else { rng.below(g.maxv + 1) };
+                    _ = g.finish_stale(v, rng, stats);
+                }
+            }
             _ => {
-                dt += *rng.pick(&[0i64, 0, 3600, 90_000]);
-                let (p, _, _) = gen_prune(rng, dt, true);
-                steps.push(p);
-                stats.hit("hist.prune");
+                g.dt += *rng.pick(&[0i64, 0, 3600, 90_000]);
+                let p = rand_prune(rng, true);
+                g.prune(p, stats);
             }
         }
     }
-    format!("c02 hist {seed} {}", steps.join(";"))
+    format!("c02 hist {seed} {}", g.steps.join(";"))
 }
